@@ -1123,7 +1123,7 @@ func checkC10(w *World, r *Report) {
 		r.Check(n == 1 && good && others == 0, "R10.10", "entries into lexString", f.Pos(), "one: the default arm of lexStmt, after backup()", fmt.Sprintf("lexString is entered from %d place(s) in lexStmt (backing up: %v) and %d elsewhere: a word can start at a position that was not checked for a comment opener, so a comment glued to the previous character (e.g. `+/* c */`) becomes part of a word", n, good, others))
 	})
 
-	r.Rule("R10.5", "line/column bookkeeping: the 'no earlier line break' test on the LastIndex result treats index 0 as found", 2)
+	r.Rule("R10.5", "line/column bookkeeping: the column printed is pos − (index of the last line break + 1) for every index from −1 (none) up, index 0 included; where the computation has another shape, at least the 'no earlier line break' test on the LastIndex result treats index 0 as found", 2)
 	r.guard("R10.5", func() {
 		for _, m := range []string{"ErrorContextPosition", "errorf"} {
 			root := w.SSAFunc(w.Method("parse", "Tree", m))
